@@ -19,6 +19,8 @@ TRUSTED = ['rustc nightly front end', 'bytes/tokio/integer-encoding contracts in
 
 def run(ctx):
     rep = Report('C09')
+    import gen_thrift as _g
+    _g.corpus_generated(rep, 'G09.h')
     prog = mirlib.load_program([ws_facts('ws')])
     cg = mirlib.CallGraph(prog)
     roots = scopes.thrift_decoder_roots(prog)
